@@ -1,18 +1,19 @@
 """C07 — channels account for every message with the specified delay, busy and drop rules.
 
 script (see coq/Channel/Multi.v `run`, harness/src/bin/chan.rs):
-  seed brk br lat jit pol lim  nl mode{nl}  ntx (len tx)*  norc (c j)*  (t c len)*
-    bitrate = br (brk = 0) | usize::MAX (brk = 1); pol 0 Drop | 1 Queue(None) | 2 Queue(Some lim);
-    nl in 1..3 links between two modules, channel 2i = forward, 2i+1 = reverse direction of link i; mode of a link:
-    0 connected before the run with its own Channel::new, 1 with a clone of one shared template handle, 2 connected at
-    run time (inside the handler that first sends on it) with the live forward channel of link 0 as template;
-    tx table: transmission time in ns per message length (the model's oracle for calculate_busy; computed
+  seed nl (brk br lat jit pol lim mode){nl}  ntx (link len tx)*  norc (c j)*  (t c len)*
+    nl in 1..3 links between two modules, channel 2i = forward, 2i+1 = reverse direction of link i; per link its metrics --
+    bitrate = br (brk = 0) | usize::MAX (brk = 1), latency, jitter, pol 0 Drop | 1 Queue(None) | 2 Queue(Some lim) -- and its
+    mode: 0 connected before the run with its own Channel::new(metrics), 1 with a clone of one shared template handle (metrics
+    of the first mode-1 link), 2 connected at run time (inside the handler that first sends on it) with the live forward
+    channel of link 0 as template (metrics of link 0);
+    tx table: transmission time in ns per (link, message length) (the model's oracle for calculate_busy; computed
     here with the same IEEE-754 operations the code uses and re-reported by the implementation);
     oracle: the jitter samples of the seeded run as (channel, sample) in transmission order (model only; for jittered
     scripts the generator obtains them from a first run of the implementation);
     offers: message m = script position, total length max(64,len) bytes, `send`t at time t into channel c mod 2nl;
     consecutive offers with equal time and equal sending module (parity of c) are one burst (one handler invocation).
-output: 7 n (len tx)* then records  1 c m t (transmission start) | 2 c m t (arrival) | 3 c t busy finish pk by (sample) |
+output: 7 n (link len tx)* then records  1 c m t (transmission start) | 2 c m t (arrival) | 3 c t busy finish pk by (sample) |
         4 c m f (fate of a send: 0 started, 1 dropped/Drop, 2 dropped/queue full, 3 queued) | 13 (run() returned Err)
 """
 import os, subprocess, itertools
@@ -24,7 +25,8 @@ COQ_MODULE = "Channel.Multi"; RUN_FN = "run"
 THEOREMS = ["C07_account", "C07_account_none_twice", "C07_run_completes", "C07_idle_implies_queue_empty", "C07_delivery_time",
             "C07_started_delivered_or_in_flight", "C07_busy_span", "C07_unbusy_stamp", "C07_fifo_start", "C07_direct_start",
             "C07_fifo_order", "C07_zero_jitter_preserves_order", "C07_queue_limit", "C07_links_independent",
-            "C07_multi_transfer", "C07_multi_channel_wf", "C07_new_instance_starts_idle", "C07_template_state_irrelevant"]
+            "C07_multi_transfer", "C07_multi_channel_wf", "C07_new_instance_starts_idle", "C07_created_idle",
+            "C07_multi_run_completes"]
 QUICK_N = 3000; THOROUGH_N = 200000
 XCHECK_N = 40
 CLAIM = dict(
@@ -41,10 +43,12 @@ CLAIM = dict(
          "offers start at once; (FIFO) a queued message starts only as head of the queue, in the handler of the Unbusy event of that "
          "very instant, direct starts only with an empty queue; (zero jitter) deliveries in order are an initial piece of the accepted "
          "offers in offer order; (queue limit) acc_bytes = sum of queued lengths and a busy offer is queued iff acc + len <= limit; "
-         "(independence of channel instances) with any number of channels on one event set -- both directions of a link, several "
-         "links built from one template handle, links connected at run time -- the record, samples and log of channel c are those of "
-         "the single-channel run on c's own part of the script, so all of the above holds per channel whatever the other channels "
-         "carry, and a new instance starts idle whatever state its template is in. "
+         "(independence of channel instances) with any number of channels on one event set, each with its own metrics and "
+         "transmission-time function -- both directions of a link, several links built from one template handle, links connected at "
+         "run time -- the instance, samples and log of channel c are those of the single-channel run with c's metrics on c's own part "
+         "of the script, so all of the above holds per channel whatever the other channels are and carry; an instance comes into "
+         "being on first use, idle whatever state its template is in; the shared loop runs dry within the runner's fuel for every "
+         "script (the sum of the per-channel termination measures decreases with every event). "
          "The model (send_message, unbusy, drop handling, the Unbusy/Exit/wake-up events ordered by the two-list event-set "
          "specification that C01 proves the calendar queue refines) is tied to des on every run by differential execution against the "
          "real Sim/Channel API (two modules joined by 1..3 links, both sending and receiving, links built from own / shared / live "
@@ -59,9 +63,8 @@ CLAIM = dict(
          "for the transmission time' is stated in event order (an offer or sample processed in the finish instant before the Unbusy "
          "event still sees the channel busy). A transmission time below 0.5 ns rounds to 0 and does not occupy the channel; with "
          "jitter > 0 deliveries may reorder; queued messages are not re-checked against the sender's state (not part of C07). The "
-         "HandleMessageEvent following an exit in the same instant is folded into the Exit event. A run-time link is modelled as an "
-         "instance that is idle from the start; sufficiency of the multi-channel runner's fuel is checked (trailing 9), not proved. "
-         "All links of a script share one metrics value; module shutdown, several channels in a chain (C08) and u64/usize overflow "
+         "HandleMessageEvent following an exit in the same instant is folded into the Exit event. Both directions of a link share its "
+         "template's metrics (Gate::connect takes one template; the model allows them to differ); module shutdown, several channels in a chain (C08) and u64/usize overflow "
          "are out of scope.",
     technique="Coq invariant proofs over a closed event loop on the C01 event-set specification (trace well-formedness predicate, "
               "count-based multiset accounting, timing and order invariants, termination measure; projection of the shared event set onto "
@@ -72,8 +75,8 @@ RULE = ("scripts from a structured generator: bitrate in {0,1,8,1e3,1e9,2e12,usi
         "latency {0,1,1e3,1e6,random}, jitter 0 (75%) or {1,2,3,10,1e3,1e6} (the oracle is then read off a first run of the "
         "implementation), Drop | Queue(None) | Queue(Some 0|len|2len-1|3len|random); 40% one link one direction with 1..14 offers "
         "whose gaps are 0 (burst inside one handler), tx-1, tx, tx+1, the remaining busy time -1/0/+1, tx+latency or a large value; "
-        "60% 1..3 links between two modules (each link: own Channel::new | clone of one shared template handle | connected at run "
-        "time from the live forward channel of link 0) with such offer sequences on 2..4 channels merged by time (both directions "
+        "60% 1..3 links between two modules (each link with its own metrics in 55% of these; own Channel::new | clone of one shared "
+        "template handle | connected at run time from the live forward channel of link 0, the template's metrics win) with such offer sequences on 2..4 channels merged by time (both directions "
         "of a link overlapping, the same direction of several template links overlapping, one handler sending into several "
         "channels, a run-time link first used while its template transmits); non-trivial = distinct script (sha1) hitting at "
         "least three targeted mechanisms")
@@ -82,12 +85,11 @@ TRUSTED = ["ChannelMetrics::calculate_busy enters the model as a per-script tabl
            "jitter samples enter the model as per-channel oracle lists; for jittered runs they are read off the implementation's own run",
            "the queue size (packets, bytes) is observed through the channel's Debug output while busy; enqueue vs drop is inferred from it",
            "the HandleMessageEvent following a MessageExitingConnection in the same instant is folded into the Exit event of the model",
-           "a link connected at run time is modelled as an instance that exists, idle, from the start (C07_new_instance_starts_idle: dup "
-           "copies metrics only); the harness connects it inside the handler that first sends on it",
-           "the fuel of the multi-channel runner (3 per offer + 1) is not proved sufficient; a trailing 9 in the model output reports "
-           "pending events (the single-channel fuel is proved: C07_run_completes)"]
+           "an instance of the model comes into being when a handler first uses it (dup of the live template, C07_created_idle); "
+           "the harness connects run-time links inside the handler that first sends on them, other links before the run"]
 ASSUMPTIONS = ["fewer than 65536 messages per script (MessageId is u16)", "times below 2^62 ns", "at most 16 channel instances (3 links used)",
-               "all links of a script have the same metrics; two modules, never shut down; receivers do not reply"]
+               "both directions of a link have the metrics of its template (Gate::connect takes one template); two modules, never shut "
+               "down; receivers do not reply"]
 
 HDR = 64
 UMAX = (1 << 64) - 1
@@ -108,19 +110,26 @@ def tx_ns(bitrate, length):
     return n
 
 
-def bitrate_of(script):
-    return UMAX if script[1] == 1 else script[2]
-
-
-# ----------------------------------------------------------------------------- script structure
 def parse(script):
-    """-> dict(seed, bitrate, lat, jit, pol, lim, nl, modes, tbl{len:tx}, oracle[(c,j)], offers[(t,c,len)])"""
-    s = list(script) + [0] * max(0, 8 - len(script))
-    nl = min(max(s[7], 1), 3)
-    i = 8
-    modes = (s[i:i + nl] + [0] * nl)[:nl]; i += nl
+    """-> dict(seed, nl, links[dict(bitrate,lat,jit,pol,lim,mode)], eff[metrics both instances of link i really get],
+              modes, tbl{(link,len):tx}, oracle[(c,j)], offers[(t,c,len)])"""
+    s = list(script) + [0] * max(0, 2 - len(script))
+    nl = min(max(s[1], 1), 3)
+    i = 2
+    links = []
+    for _ in range(nl):
+        f = (s[i:i + 7] + [0] * 7)[:7]; i += 7
+        links.append(dict(bitrate=UMAX if f[0] == 1 else f[1], lat=f[2], jit=f[3], pol=f[4], lim=f[5], mode=f[6]))
+    first_shared = next((j for j, l in enumerate(links) if l["mode"] == 1), None)
+    eff = []
+    for j, l in enumerate(links):
+        if l["mode"] == 1: eff.append(links[first_shared])
+        elif l["mode"] == 2 and j != 0: eff.append(links[0])
+        else: eff.append(l)
+    modes = [l["mode"] for l in links]
     if modes[0] == 2:
         modes[0] = 0
+    i = min(i, len(s))
     k = s[i] if i < len(s) else 0
     tb = s[i + 1:i + 1 + k]; i += 1 + k
     k2 = s[i] if i < len(s) else 0
@@ -129,11 +138,10 @@ def parse(script):
     rest = s[i:]
     offers = [(rest[j], rest[j + 1] % (2 * nl), max(HDR, rest[j + 2])) for j in range(0, len(rest) - 2, 3)]
     tbl = {}
-    for j in range(0, len(tb) - 1, 2):
-        tbl.setdefault(tb[j], tb[j + 1])
+    for j in range(0, len(tb) - 2, 3):
+        tbl.setdefault((tb[j], tb[j + 1]), tb[j + 2])
     orc = [(ob[j], ob[j + 1]) for j in range(0, len(ob) - 1, 2)]
-    return dict(seed=s[0], bitrate=bitrate_of(s), lat=s[3], jit=s[4], pol=s[5], lim=s[6], nl=nl, modes=modes, tbl=tbl,
-                oracle=orc, offers=offers, hdr_end=i)
+    return dict(seed=s[0], nl=nl, links=links, eff=eff, modes=modes, tbl=tbl, oracle=orc, offers=offers, hdr_end=i)
 
 
 def split(script):
@@ -151,35 +159,52 @@ def join(hdr, ops):
     return out
 
 
-def build(seed, bitrate, lat, jit, pol, lim, offers, oracle=(), modes=(0,)):
-    """offers: (t, len) for channel 0 or (t, c, len); oracle: (c, j) pairs"""
-    offers = [o if len(o) == 3 else (o[0], 0, o[1]) for o in offers]
-    lens = []
-    for _, _, l in offers:
-        l = max(HDR, l)
-        if l not in lens:
-            lens.append(l)
+def build_links(seed, links, offers, oracle=()):
+    """links: (bitrate, lat, jit, pol, lim, mode) per link; offers: (t, c, len); oracle: (c, j) pairs"""
+    nl = len(links)
+    first_shared = next((j for j, l in enumerate(links) if l[5] == 1), None)
+    eff_br = []
+    for j, l in enumerate(links):
+        if l[5] == 1: eff_br.append(links[first_shared][0])
+        elif l[5] == 2 and j != 0: eff_br.append(links[0][0])
+        else: eff_br.append(l[0])
+    keys = []
+    for _, c, l in offers:
+        key = ((c % (2 * nl)) // 2, max(HDR, l))
+        if key not in keys:
+            keys.append(key)
     tb = []
-    for l in lens:
-        tb += [l, tx_ns(bitrate, l)]
-    brk, br = (1, 0) if bitrate == UMAX else (0, bitrate)
+    for i, l in keys:
+        tb += [i, l, tx_ns(eff_br[i], l)]
+    s = [seed, nl]
+    for br, lat, jit, pol, lim, mode in links:
+        brk, brv = (1, 0) if br == UMAX else (0, br)
+        s += [brk, brv, lat, jit, pol, lim, mode]
     ob = []
     for c, j in oracle:
         ob += [c, j]
-    s = [seed, brk, br, lat, jit, pol, lim, len(modes)] + list(modes) + [len(tb)] + tb + [len(ob)] + ob
+    s += [len(tb)] + tb + [len(ob)] + ob
     for t, c, l in offers:
         s += [t, c, l]
     return s
 
 
+def build(seed, bitrate, lat, jit, pol, lim, offers, oracle=(), modes=(0,)):
+    """all links with the same metrics; offers: (t, len) for channel 0 or (t, c, len)"""
+    offers = [o if len(o) == 3 else (o[0], 0, o[1]) for o in offers]
+    return build_links(seed, [(bitrate, lat, jit, pol, lim, m) for m in modes], offers, oracle)
+
+
 def pretty(script):
     p = parse(script)
-    pol = {0: "Drop", 1: "Queue(None)"}.get(p["pol"], "Queue(Some(%d))" % p["lim"])
-    br = "usize::MAX" if p["bitrate"] == UMAX else str(p["bitrate"])
     mode = {0: "own", 1: "shared-template", 2: "run-time-from-live-link0"}
+
+    def link(l):
+        pol = {0: "Drop", 1: "Queue(None)"}.get(l["pol"], "Queue(Some(%d))" % l["lim"])
+        br = "usize::MAX" if l["bitrate"] == UMAX else str(l["bitrate"])
+        return "[%s bitrate=%s latency=%dns jitter=%dns %s]" % (mode.get(l["mode"], "own"), br, l["lat"], l["jit"], pol)
     offs = "; ".join("send#%d(ch%d,len=%d)@%d" % (m, c, l, t) for m, (t, c, l) in enumerate(p["offers"]))
-    return "seed=%d bitrate=%s latency=%dns jitter=%dns %s links=%s tx=%s oracle=%s: %s" % (
-        p["seed"], br, p["lat"], p["jit"], pol, [mode.get(x, "own") for x in p["modes"]], p["tbl"], p["oracle"], offs)
+    return "seed=%d links=%s tx=%s oracle=%s: %s" % (p["seed"], " ".join(link(l) for l in p["links"]), p["tbl"], p["oracle"], offs)
 
 
 def walk(out):
@@ -190,7 +215,7 @@ def walk(out):
     i = 2
     tbl = {}
     for _ in range(n):
-        tbl.setdefault(out[i], out[i + 1]); i += 2
+        tbl.setdefault((out[i], out[i + 1]), out[i + 2]); i += 3
     recs = []
     err = False
     size = {1: 4, 2: 4, 3: 7, 4: 4}
@@ -216,19 +241,23 @@ def _analyse(script, out):
         return "malformed output: %s" % e, [], {}
     if err:
         return "run() returned an error", [], {}
-    br = p["bitrate"]
-    # (0) the transmission time is size*8/bitrate up to rounding to whole ns
-    for l, t in tbl.items():
+    # (0) the transmission time is size*8/bitrate (of the link's template) up to rounding to whole ns
+    for (i, l), t in tbl.items():
+        if i >= p["nl"]:
+            continue
+        br = p["eff"][i]["bitrate"]
         l = max(l, HDR)
         if br == 0:
             if t != 0:
-                return "bitrate 0 (unlimited) but calculate_busy(%d) = %d" % (l, t), [], {}
+                return "link %d: bitrate 0 (unlimited) but calculate_busy(%d) = %d" % (i, l, t), [], {}
         else:
             exact = Fraction(l * 8 * 10 ** 9, br)
             if abs(t - exact) > Fraction(1, 2) + exact / (1 << 50):
-                return "calculate_busy(%d B) = %d ns is not size*8/bitrate = %s ns rounded" % (l, t, float(exact)), [], {}
-    def tx(l):
-        return tbl[l] if l in tbl else tx_ns(br, l)
+                return "link %d: calculate_busy(%d B) = %d ns is not size*8/bitrate = %s ns rounded" % (i, l, t, float(exact)), [], {}
+
+    def txc(c):
+        i = c // 2
+        return lambda l: tbl[(i, l)] if (i, l) in tbl else tx_ns(p["eff"][i]["bitrate"], l)
     # every record carries the channel its message was sent into; time never runs backwards
     chan_of = {m: c for m, (t, c, l) in enumerate(p["offers"])}
     last = 0
@@ -251,10 +280,11 @@ def _analyse(script, out):
     # C07 for every channel instance on its own: what happens on the other channels must not matter
     inversions = []
     facts = dict(fates={}, starts={}, multi=0, zero_deq=0, exact=0, off1=0, at_unbusy=0, arrive={}, arr_order=[],
-                 start_order=[], busy_spans={}, tx=tx, p=p, jitter_reorders=False)
+                 start_order=[], busy_spans={}, p=p, jitter_reorders=False)
     for c in sorted(per):
         offs = {m: (t, l) for m, (t, cc, l) in enumerate(p["offers"]) if cc == c}
-        msg, inv, f = _chan(p, tx, offs, per[c])
+        tx = txc(c)
+        msg, inv, f = _chan(p["eff"][c // 2], tx, offs, per[c])
         if msg is not None:
             return "channel %d: %s" % (c, msg), [], {}
         inversions += inv
@@ -270,7 +300,7 @@ def _analyse(script, out):
 
 
 def _chan(p, tx, offers, recs):
-    """C07 on the records of one channel instance (tags without the channel field); offers: id -> (time, len)."""
+    """C07 on the records of one channel instance (tags without the channel field) with metrics p; offers: id -> (time, len)."""
     lat, jit, pol, lim = p["lat"], p["jit"], p["pol"], p["lim"]
     fate = {}; start = {}; arrive = {}; start_order = []; arr_order = []; offer_order = []
     queue = []            # queued, not yet started (ids, FIFO)
@@ -444,17 +474,18 @@ def mechanisms(script, out):
     p = parse(script)
     ms = set()
     offers = p["offers"]
-    br = p["bitrate"]
-    if br == 0: ms.add("bitrate_0")
-    if br == UMAX: ms.add("bitrate_usize_max")
-    if br >= 10 ** 12: ms.add("bitrate_huge")
-    ms.add(["drop_policy", "queue_unbounded", "queue_bounded"][min(p["pol"], 2)])
-    if p["pol"] == 2 and p["lim"] == 0: ms.add("queue_limit_0")
-    if p["jit"]: ms.add("jitter")
-    if p["lat"] == 0: ms.add("latency_0")
     used = sorted({c for _, c, _ in offers})
     for c in used:
-        mine = sorted(t_l for t_l in ((t, l) for t, cc, l in offers if cc == c))
+        e = p["eff"][c // 2]
+        br = e["bitrate"]
+        if br == 0: ms.add("bitrate_0")
+        if br == UMAX: ms.add("bitrate_usize_max")
+        if br >= 10 ** 12: ms.add("bitrate_huge")
+        ms.add(["drop_policy", "queue_unbounded", "queue_bounded"][min(e["pol"], 2)])
+        if e["pol"] == 2 and e["lim"] == 0: ms.add("queue_limit_0")
+        if e["jit"]: ms.add("jitter")
+        if e["lat"] == 0: ms.add("latency_0")
+        mine = sorted((t, l) for t, cc, l in offers if cc == c)
         for (t0, l0), (t1, _) in zip(mine, mine[1:]):
             g = t1 - t0
             x = tx_ns(br, l0)
@@ -462,7 +493,9 @@ def mechanisms(script, out):
             elif g < x: ms.add("gap_lt_tx")
             elif g == x: ms.add("gap_eq_tx")
             else: ms.add("gap_gt_tx")
-    if any(tx_ns(br, l) == 0 for _, _, l in offers) and br != 0: ms.add("tx_rounds_to_0")
+        if br != 0 and any(tx_ns(br, l) == 0 for _, cc, l in offers if cc == c): ms.add("tx_rounds_to_0")
+    def key(l): return (l["bitrate"], l["lat"], l["jit"], l["pol"], l["lim"])
+    if len({key(p["eff"][c // 2]) for c in used}) > 1: ms.add("links_with_different_metrics")
     if len(used) > 1: ms.add("several_channels")
     if any(c % 2 for c in used) and any(c % 2 == 0 for c in used): ms.add("both_modules_send")
     for (t0, c0, _), (t1, c1, _) in zip(offers, offers[1:]):
@@ -491,7 +524,7 @@ def mechanisms(script, out):
     if f["off1"]: ms.add("queue_over_by_one")
     if f["at_unbusy"]: ms.add("offer_at_unbusy_instant_still_busy")
     if inv: ms.add("same_instant_reorder")
-    if p["jit"] and f["jitter_reorders"]: ms.add("jitter_reorders")
+    if f["jitter_reorders"]: ms.add("jitter_reorders")
     sp = f["busy_spans"]
 
     def overlap(a, b):
@@ -542,7 +575,7 @@ def gen_chan(rng, br, sizes, lat, pol, n, t):
     return offers
 
 
-def gen_plain(rng):
+def rand_metrics(rng):
     br = rng.choice(BITRATES) if rng.random() < 0.8 else rng.choice([3, 7, 12345, 64 * 8, 10 ** 6 + 1, 8 * 10 ** 9, 4 * 10 ** 12, 10 ** 15, 1 << 53, (1 << 62) - 1])
     sizes = rng.sample(SIZES, rng.randint(1, 3)) if rng.random() < 0.85 else [rng.randint(64, 3000) for _ in range(2)]
     if br >= 10 ** 12 and rng.random() < 0.7:
@@ -556,6 +589,11 @@ def gen_plain(rng):
     else:
         pol = 2
         lim = rng.choice([0, base, 2 * base - 1, 2 * base, 3 * base, base + 64, rng.randint(0, 4 * base)])
+    return br, sizes, lat, jit, pol, lim
+
+
+def gen_plain(rng):
+    br, sizes, lat, jit, pol, lim = rand_metrics(rng)
     t0 = rng.choice([0, 0, 1, 1000])
     r = rng.random()
     if r < 0.04:
@@ -581,6 +619,18 @@ def gen_plain(rng):
     elif kind < 0.6: modes = [1] * nl
     elif kind < 0.8: modes = [0] + [2] * (nl - 1)
     else: modes = [rng.choice([0, 1])] + [rng.choice([0, 1, 2]) for _ in range(nl - 1)]
+    # every link carries its own metrics in the script (what its instances get is decided by its template)
+    links = [(br, lat, jit, pol, lim, modes[0])]
+    differ = rng.random() < 0.55
+    for i in range(1, nl):
+        if differ:
+            b2, _, l2, j2, p2, m2 = rand_metrics(rng)
+            if rng.random() < 0.5: b2 = br          # same speed, other latency/policy
+            links.append((b2, l2, j2 if jit else 0, p2, m2, modes[i]))
+        else:
+            links.append((br, lat, jit, pol, lim, modes[i]))
+    first_shared = next((j for j, l in enumerate(links) if l[5] == 1), None)
+    eff = [links[first_shared] if l[5] == 1 else (links[0] if l[5] == 2 and j else l) for j, l in enumerate(links)]
     chans = rng.sample(range(2 * nl), rng.randint(2, min(2 * nl, 4))) if nl > 1 else [0, 1]
     if rng.random() < 0.5 and nl > 1:
         # the same direction of several links (reverse: the instances a shared handle used to alias)
@@ -592,13 +642,16 @@ def gen_plain(rng):
     per = max(1, 12 // len(chans))
     merged = []
     for c in chans:
-        start = t0 + rng.choice([0, 0, 1, tx_ns(br, sizes[0]) // 2, tx_ns(br, sizes[0])])
-        for t, l in gen_chan(rng, br, sizes, lat, pol, rng.randint(1, per + 1), start):
+        e = eff[c // 2]
+        start = t0 + rng.choice([0, 0, 1, tx_ns(e[0], sizes[0]) // 2, tx_ns(e[0], sizes[0])])
+        if tx_ns(e[0], max(sizes)) > 10 ** 13:
+            start = t0                          # keep horizons of slow links apart from fast ones small
+        for t, l in gen_chan(rng, e[0], sizes, e[1], e[3], rng.randint(1, per + 1), start):
             merged.append((t, rng.random(), c, l))
     merged.sort(key=lambda o: (o[0], o[2] % 2 if rng.random() < 0.5 else o[1]))
     merged.sort(key=lambda o: o[0])
     offers = [(t, c, l) for t, _, c, l in merged]
-    return build(rng.randint(0, 10 ** 6), br, lat, jit, pol, lim, offers, modes=tuple(modes))
+    return build_links(rng.randint(0, 10 ** 6), links, offers)
 
 
 def _impl_bin():
@@ -610,7 +663,8 @@ def _impl_bin():
 def fill_oracles(scripts):
     """For scripts with jitter: run the implementation once and record the samples it drew
     (arrival - start - tx - latency, per channel in transmission order) as the model's oracle."""
-    idx = [i for i, s in enumerate(scripts) if s[4] != 0]
+    parsed = {i: parse(s) for i, s in enumerate(scripts)}
+    idx = [i for i in parsed if any(l["jit"] for l in parsed[i]["eff"])]
     if not idx or not os.path.exists(_impl_bin()):
         return scripts
     inp = "\n".join(" ".join(str(x) for x in scripts[i]) for i in idx) + "\n"
@@ -625,17 +679,20 @@ def fill_oracles(scripts):
             tbl, recs, _ = walk(out)
         except Exception:
             continue
-        p = parse(scripts[i])
+        p = parsed[i]
         starts = [(r[1], r[2], r[3]) for r in recs if r[0] == 1]
         arr = {r[2]: r[3] for r in recs if r[0] == 2}
         orc = []
         for c, m, t in starts:
+            if c // 2 >= p["nl"] or not p["eff"][c // 2]["jit"]:
+                continue                       # no sample is drawn without jitter
             if m in arr and m < len(p["offers"]):
                 l = p["offers"][m][2]
-                orc.append((c, max(0, arr[m] - t - tbl.get(l, 0) - p["lat"])))
+                orc.append((c, max(0, arr[m] - t - tbl.get((c // 2, l), 0) - p["eff"][c // 2]["lat"])))
             else:
                 orc.append((c, 0))
-        scripts[i] = build(p["seed"], p["bitrate"], p["lat"], p["jit"], p["pol"], p["lim"], p["offers"], orc, tuple(p["modes"]))
+        links = [(l["bitrate"], l["lat"], l["jit"], l["pol"], l["lim"], l["mode"]) for l in p["links"]]
+        scripts[i] = build_links(p["seed"], links, p["offers"], orc)
     return scripts
 
 
